@@ -98,6 +98,12 @@ def systematic():
         out.append(grammar_text(s)); out.append(grammar_text(s, "", '"b"', "", '_{ " " }'))
     out.append(grammar_text('PUSH("a") ~ ("x" | b | "c") ~ PEEK_ALL', "", 'POP', "_"))
     out.append(grammar_text('PUSH(ANY) ~ PUSH(ANY) ~ b*', "", 'DROP', ""))
+    # a rule of every type called from a rule of every type, where the enclosing sequence fails after the inner rule matched and the
+    # failure is absorbed by a choice / repetition (tokens of the abandoned attempt must go; atomicity must be put back)
+    for m in MODS:
+        for m2 in MODS:
+            out.append(grammar_text('(b ~ "!") | (ANY ~ "?")', m, '"b"', m2))
+            out.append(grammar_text('(b ~ "/")* ~ ANY', m, "'a'..'c'", m2, '_{ " " }'))
     return out
 
 
@@ -119,7 +125,8 @@ def family(seed, count, depth=3, extras=False):
     if extras:
         ex = extras_systematic(); rng.shuffle(ex)
         sysm = ex + sysm
-    out = sysm[:max(count // 2, min(len(sysm), count))]
+    out = list(sysm)            # every aimed shape is part of every run; the seeded random part fills the rest (at least a fifth of the budget)
+    count = max(count, len(out) + count // 5)
     seen = set(out)
     tries = 0
     while len(out) < count and tries < 50 * count:
